@@ -76,6 +76,38 @@ def gen(rng, tier, k):
         vals = [120.0, 150.0, 90.0, 200.0, 173.25, 60.0, 240.0]
         for i, b in enumerate(ch["bpms"]):
             b[1] = vals[i % len(vals)]
+        if op in ("dominant", "scroll", "normalize") and rng.random() < 0.3 and len(ch["bpms"]) >= 2:
+            # two tempo values active for exactly the same (maximal) time: whichever is called dominant, it must not depend on row order
+            b = ch["bpms"]
+            t0_ = b[0][0]
+            b[:] = [[t0_, 120.0, 4], [t0_ + 1000.0, 150.0, 4]]
+            for n in ch["hits"] + ch["holds"]:
+                n[0] = min(n[0], t0_ + 1500.0) if n[0] >= t0_ else n[0]
+            for h in ch["holds"]:
+                h[2] = min(h[2], 100.0)
+            ch["hits"].append([t0_ + 2000.0, 0])
+            if "hit_x" in ch:
+                ch["hit_x"].append(list(ch["hit_x"][0]) if ch["hit_x"] else {"osu": [0, 0, 0, 0, 0, ""], "qua": [[]], "bms": [b""], "o2j": [0, 8]}.get(game, []))
+            if "bpm_x" in ch:
+                ch["bpm_x"] = [[0, 0, 50, False] for _ in b]
+            seen2 = set()
+            for key in ("hits", "holds"):
+                keep, keepx = [], []
+                for i, n in enumerate(ch[key]):
+                    if (n[0], n[1]) in seen2:
+                        continue
+                    seen2.add((n[0], n[1]))
+                    keep.append(n)
+                    if (key[:-1] + "_x") in ch:
+                        keepx.append(ch[key[:-1] + "_x"][i])
+                ch[key] = keep
+                if (key[:-1] + "_x") in ch:
+                    ch[key[:-1] + "_x"] = keepx
+            if "svs" in ch:
+                keep = [i for i, s in enumerate(ch["svs"]) if s[0] not in (t0_, t0_ + 1000.0)]
+                ch["svs"] = [ch["svs"][i] for i in keep]
+                if "sv_x" in ch:
+                    ch["sv_x"] = [ch["sv_x"][i] for i in keep]
     return dict(cls=op + ":" + game, op=op, game=game, spec=spec, perms=perms, conv=rng.choice(CONV[game]), rate=rng.choice([0.5, 1.5, 2.0]),
                 gap=rng.choice([0, 50, 150]), thres=rng.choice([0, 100]), override=rng.choice([None, 200.0]))
 
@@ -215,10 +247,11 @@ def run(ctx, case):
     m0 = base.maps[0] if hasattr(base, "maps") else base
     if op in ("dominant", "scroll", "normalize"):
         try:
+            # Ties are judged too: every tempo point of these charts has its own bpm value, so each total is a single
+            # difference (no summation order to vary) and C15 asks for the same value whichever tied bpm is called dominant.
             acc, near = dominant_candidates(m0)
             if len(acc) != 1 or near:
-                ctx.counters["c15|skipped_dominant_tie"] += 1
-                return
+                ctx.state("c15.dominant_tie", True)
         except Exception:
             return
     try:
